@@ -69,7 +69,12 @@ class LBCheck(BaseCheck):
     gs_dups = rng.choice([1, 2]) if rng.random() < 0.15 else 0
     if gs_dups and n0:
       classes.add('duplicates-in-initial-list')
-    w = make_world(env, rng, kind, lb_params, open_delay, gs_delay, gs_fail, gs_dups)
+    named = rng.choice(['thrift', 'aux']) if rng.random() < 0.12 else None
+    if named:
+      # the provider names one of the members' additional endpoints (zk://...#name): that one is
+      # the member's address for the balancer, the service endpoint is not to be used
+      classes.add('named-endpoint')
+    w = make_world(env, rng, kind, lb_params, open_delay, gs_delay, gs_fail, gs_dups, endpoint_name=named)
     lb, ss = w.lb, w.ss
     for ep in rng.sample(pool, n0):
       ss.truth[ep] = __import__('vlib.lbworld', fromlist=['Member']).Member(ep)
